@@ -107,7 +107,7 @@ func runC16Floats(c *core.Ctx) {
 // reverse it" and similar shortcuts are decided by exactly such shapes.
 func runC16Shaped(c *core.Ctx) {
 	r := c.R
-	n := []int{12, 13, 31, 32, 33, 40, 64, 65, 100, 257, 1000}[r.Intn(11)]
+	n := []int{12, 13, 31, 32, 33, 40, 64, 65, 100, 257, 1000, 2049, 4096, 4097, 4098, 4099, 5001, 10002, 16387}[r.Intn(19)]
 	shape := r.Intn(5)
 	vals := make([]int, n)
 	for i := range vals {
@@ -199,6 +199,19 @@ func runC16(c *core.Ctx) {
 	kind := dynKinds[c.Index%len(dynKinds)]
 	d := newDynRandom(c, kind, false)
 	d.build(c, r.Range(0, 30))
+	switch r.Intn(10) {
+	case 0:
+		// emptied by Clear (storage with spare capacity may be kept) ...
+		c.Begin(kind, "Clear")
+		d.C.Clear()
+		c.Count("state:cleared", 1)
+	case 1:
+		// ... and a second generation after it
+		c.Begin(kind, "Clear")
+		d.C.Clear()
+		d.build(c, r.Range(1, 6))
+		c.Count("state:cleared-then-refilled", 1)
+	}
 
 	// (a) writing to a returned slice never changes the container
 	for _, sc := range d.Scribblers {
@@ -304,6 +317,8 @@ func init() {
 			f.atLeast("obs:argument-slice", 5000)
 			f.atLeast("obs:sorted-values>=2", 10000)
 			f.atLeast("obs:shaped-contents-cases", 1000)
+			f.atLeast("state:cleared", 1000)
+			f.atLeast("state:cleared-then-refilled", 1000)
 			return f.missing
 		},
 		Files: append(append([]string{}, allContainerFiles...), "containers/containers.go"),
